@@ -614,12 +614,24 @@ def coup(ctx: Ctx, rep: Report) -> None:
     g = ctx.cfg(f)
     qn = 'Circuit.replace'
     n += 1
-    tests = [t for t in g.nodes if t.kind == 'test' and (
-        'set(old_op.location) == set(op.location)' in norm(t.stmt.test))]
+    # the qudit sets of the old and the new operation are compared, in
+    # either polarity: `set(a.location) == set(b.location)` guards the
+    # in-place path on its true edge, `... != ...` (also as the last
+    # disjunct of a guard clause that returns) on its false edge
+    def _setcmp(t):
+        for k in ast.walk(t.stmt.test):
+            if isinstance(k, ast.Compare) and len(k.ops) == 1 and isinstance(
+                    k.ops[0], (ast.Eq, ast.NotEq)):
+                sides = [norm(k.left), norm(k.comparators[0])]
+                if all(s.startswith('set(') and s.endswith('.location)')
+                       for s in sides):
+                    return 'true' if isinstance(k.ops[0], ast.Eq) else 'false'
+        return None
+    tests = [t for t in g.nodes if t.kind == 'test' and _setcmp(t)]
     cell = [d for d in g.nodes if isinstance(d.stmt, ast.Assign) and any(
         norm(t).startswith('self._circuit[') for t in d.stmt.targets)]
     ok = bool(tests) and bool(cell) and all(
-        g.edge_dominates(tests[0].id, 'true', d.id) for d in cell)
+        g.edge_dominates(tests[0].id, _setcmp(tests[0]), d.id) for d in cell)
     rep.count()
     rep.check(
         ok, R, qn, f.path, (tests[0].lineno if tests else f.lineno),
@@ -630,13 +642,24 @@ def coup(ctx: Ctx, rep: Report) -> None:
         key='fastpath-guard',
     )
     ws = effects.writes(f.node)
+    # a key may be held in a temporary (`old_gate = old_op.gate`)
+    _single: dict[str, list[ast.expr]] = {}
+    for s_ in ast.walk(f.node):
+        if isinstance(s_, ast.Assign) and len(s_.targets) == 1 and isinstance(
+                s_.targets[0], ast.Name):
+            _single.setdefault(s_.targets[0].id, []).append(s_.value)
+
+    def _key(e: ast.AST) -> str:
+        if isinstance(e, ast.Name) and len(_single.get(e.id, [])) == 1:
+            return norm(_single[e.id][0])
+        return norm(e)
     for field, sign, keytxt in (
         ('_gate_info', ast.Sub, 'old_op.gate'),
         ('_gate_info', ast.Add, 'op.gate'),
     ):
         n += 1
         got = [w for w in ws if w.field == field and w.kind == 'aug'
-               and isinstance(w.op, sign) and norm(w.subs[0]) == keytxt
+               and isinstance(w.op, sign) and _key(w.subs[0]) == keytxt
                and norm(w.value) == '1']
         rep.count()
         rep.check(
@@ -666,6 +689,18 @@ def coup(ctx: Ctx, rep: Report) -> None:
     rep.seen(f.qualname)
     ws = effects.writes(f.node)
     qn = 'Circuit.straighten'
+    # the source / destination points, whatever the locals are called:
+    # the names bound to CircuitPoint(old_cycle_index, ..) / (new_.., ..)
+    s_name, d_name = 's_point', 'd_point'
+    for s_ in ast.walk(f.node):
+        if isinstance(s_, ast.Assign) and len(s_.targets) == 1 and isinstance(
+                s_.targets[0], ast.Name) and isinstance(
+                    s_.value, ast.Call) and norm(
+                        s_.value.func) == 'CircuitPoint' and s_.value.args:
+            if norm(s_.value.args[0]) == 'old_cycle_index':
+                s_name = s_.targets[0].id
+            elif norm(s_.value.args[0]) == 'new_cycle_index':
+                d_name = s_.targets[0].id
     checks = [
         ('_circuit:new', [w for w in ws if w.field == '_circuit'
                           and w.kind == 'setitem' and norm(w.value) == 'op'
@@ -675,14 +710,14 @@ def coup(ctx: Ctx, rep: Report) -> None:
                           and norm(w.subs[0]) == 'old_cycle_index']),
         ('_dag:pop', [w for w in ws if w.field == '_dag' and w.kind == 'call'
                       and w.method == 'pop'
-                      and norm(w.call.args[0]) == 's_point']),
+                      and norm(w.call.args[0]) == s_name]),
         ('_dag:new', [w for w in ws if w.field == '_dag'
                       and w.kind == 'setitem' and len(w.subs) == 1
-                      and norm(w.subs[0]) == 'd_point']),
+                      and norm(w.subs[0]) == d_name]),
         ('_front', [w for w in ws if w.field == '_front'
-                    and norm(w.value) == 'd_point']),
+                    and norm(w.value) == d_name]),
         ('_rear', [w for w in ws if w.field == '_rear'
-                   and norm(w.value) == 'd_point']),
+                   and norm(w.value) == d_name]),
     ]
     for field, got in checks:
         n += 1
@@ -748,7 +783,11 @@ def _sides(f: FunctionInfo) -> dict[str, str]:
             t, v = n.targets[0], n.value
             tn = norm(t)
             vt = norm(v)
-            if isinstance(t, ast.Tuple) and vt.startswith('self._dag['):
+            if isinstance(t, ast.Name) and isinstance(v, ast.Call) and norm(
+                    v.func) == 'CircuitPoint' and tn not in sides:
+                # a freshly built point is the operation's own position
+                sides[tn] = 'SELF'
+            elif isinstance(t, ast.Tuple) and vt.startswith('self._dag['):
                 if len(t.elts) == 2:
                     sides[norm(t.elts[0]) + '[]'] = 'PREV'
                     sides[norm(t.elts[1]) + '[]'] = 'NEXT'
